@@ -180,7 +180,7 @@ def flat_items(x, prefix=""):
     elif isinstance(x, NP.sparse_matrix):
         out += flat_items(x.m, prefix)
     elif isinstance(x, _np.ndarray):
-        for k, v in enumerate(x.reshape(-1).tolist()):
+        for k, v in enumerate(_np.asarray(x).reshape(-1).tolist()):
             out.append((f"{prefix}[{k}]", v))
     elif isinstance(x, (list, tuple)):
         for k, v in enumerate(x):
